@@ -30,7 +30,8 @@ Inductive obs :=
 | ORefused | ORaised
 | OChanges (local : bool) (edits : list (N * list N)) (moves : list N).
 
-Record query := { q_mod : N; q_tok : N; q_kw : bool; q_obs : obs }.
+(* [q_alpha]: evaluate the alpha theorem on this query (the harness sets it for one query per distinct change set) *)
+Record query := { q_mod : N; q_tok : N; q_kw : bool; q_alpha : bool; q_obs : obs }.
 
 Record case := {
   c_mods : list pmod;
@@ -55,24 +56,37 @@ Fixpoint assocN {A} (x : N) (l : list (N * A)) : option A :=
 
 Definition is_unm (k : gkey) : bool := match k with GUnm => true | _ => false end.
 
+(* computed once per case (vm_compute is call by value: a section-local [Let] would be recomputed by every
+   definition that mentions it, i.e. once per query) *)
+Definition case_ctx (c : case) : list mctx :=
+  map (fun m => mk_ctx (c_builtins c) (c_idents c) (c_odd c) (c_prop c) (pm_name m) (pm_kwlike m) (pm_prog m)) (c_mods c).
+
+(* per module, the ids of the tokens the model is compared on: not in a skipped textual situation, modelled *)
+Definition case_cmps (c : case) (cx : list mctx) : list (list N) :=
+  let skips := map (fun m => pm_skip m ++ unvisited_ids (pm_prog m)) (c_mods c) in
+  map (fun jx =>
+         map t_id (filter (fun t =>
+                     if memN (t_id t) (nth (fst jx) skips []) then false
+                     else negb (is_unm (gkey_of (c_builtins c) (c_init c) (c_call c) cx (fst jx) (snd jx) t)))
+                   (x_ts (snd jx))))
+      (enum_from 0 cx).
+
+(* per module: inside C02's fragment / token ids unique and the new name fresh *)
+Definition case_frags (c : case) (cx : list mctx) : list (bool * bool) :=
+  map (fun mx => let m := fst mx in let x := snd mx in
+                 (in_fragment_C02 (c_builtins c) (inh_of (x_inh x)) (c_init c) (c_call c) (x_ms x) (kw_of (x_kw x)) (pm_prog m),
+                  unique_ids (pm_prog m) && fresh_name (pm_prog m) (c_fresh c)))
+      (combine (c_mods c) cx).
+
 Section Run.
   Variable c : case.
+  Variable cx : list mctx.
+  Variable cmps : list (list N).
+  Variable frags : list (bool * bool).
   Let bi := c_builtins c.
-  Let cx := map (fun m => mk_ctx bi (c_idents c) (c_odd c) (c_prop c) (pm_name m) (pm_kwlike m) (pm_prog m)) (c_mods c).
-  Let skips := map (fun m => pm_skip m ++ unvisited_ids (pm_prog m)) (c_mods c).
 
-  Definition compared (j : nat) (t : tok) : bool :=
-    negb (memN (t_id t) (nth j skips []))
-    && match nth_error cx j with
-       | Some x => negb (is_unm (gkey_of bi (c_init c) (c_call c) cx j x t))
-       | None => false
-       end.
-
-  Definition cmp_ids (j : nat) : list N :=
-    match nth_error cx j with
-    | Some x => map t_id (filter (compared j) (x_ts x))
-    | None => []
-    end.
+  Definition cmp_ids (j : nat) : list N := nth j cmps [].
+  Definition compared (j : nat) (t : tok) : bool := memN (t_id t) (cmp_ids j).
 
   (* 0 agree or not modelled; 2 edit sets differ; 3 refusal differs; 4 exception differs; 5 _is_local differs;
      6 resource moves differ; 7 the model has no such token *)
@@ -159,13 +173,6 @@ Section Run.
   (* the queries on which model and observation differ: (index of the query, code) *)
   Definition run_case : list (N * N) := bad_from 0 (c_queries c).
 
-  (* the alpha theorem on the case.  Per module: inside C02's fragment / the structural hypothesis holds. *)
-  Let frags : list (bool * bool) :=
-    map (fun mx => let m := fst mx in let x := snd mx in
-                   (in_fragment_C02 bi (inh_of (x_inh x)) (c_init c) (c_call c) (x_ms x) (kw_of (x_kw x)) (pm_prog m),
-                    unique_ids (pm_prog m) && fresh_name (pm_prog m) (c_fresh c)))
-        (combine (c_mods c) cx).
-
   (* 0 not applicable (keyword query, module rename, token that is not a core token or denotes no scope-owned
        binding, binding seen from several modules);
      1 inside the domain of C01_alpha_partial and its conclusion holds on every core token of the module;
@@ -175,7 +182,7 @@ Section Run.
        harness's translation, not of rope) *)
   Definition alpha_class (q : query) : N :=
     let m := N.to_nat (q_mod q) in
-    if q_kw q || N.eqb (q_tok q) whole_module then 0
+    if negb (q_alpha q) || q_kw q || N.eqb (q_tok q) whole_module then 0
     else
       match nth_error (c_mods c) m, token_of cx m (q_tok q), nth_error frags m with
       | Some pm, Some (x, t), Some (frag, wt) =>
@@ -219,7 +226,7 @@ Section Run.
 
   Definition alpha_multi_class (q : query) : N :=
     let m := N.to_nat (q_mod q) in
-    if q_kw q || N.eqb (q_tok q) whole_module then 0
+    if negb (q_alpha q) || q_kw q || N.eqb (q_tok q) whole_module then 0
     else
       match token_of cx m (q_tok q) with
       | Some (xm, t) =>
@@ -282,13 +289,15 @@ Section Run.
   Definition alpha_multi_classes : list N := map alpha_multi_class (c_queries c).
   Definition classes : list N := map classify (c_queries c).
   Definition regressed_count : N := fold_right N.add 0%N (map regressed (c_queries c)).
+  Definition results := (run_case, classes, alpha_classes, regressed_count, alpha_multi_classes).
 End Run.
 
-Definition mismatches (cs : list case) : list (list (N * N)) := map run_case cs.
-Definition all_classes (cs : list case) : list (list N) := map classes cs.
-Definition all_regressed (cs : list case) : list N := map regressed_count cs.
-Definition all_alpha (cs : list case) : list (list N) := map alpha_classes cs.
-Definition all_alpha_multi (cs : list case) : list (list N) := map alpha_multi_classes cs.
+Definition case_results (c : case) :=
+  let cx := case_ctx c in
+  results c cx (case_cmps c cx) (case_frags c cx).
+(* per case: (mismatching queries, class per query, alpha class per query, observations that show a fixed defect
+   again, alpha class of the renames that touch several modules) *)
+Definition all_results (cs : list case) := map case_results cs.
 
 (* debugging aid: the model's view of a case: per module, per token (id, key class, module of the key) *)
 Definition describe (c : case) : list (list (N * (N * N))) :=
@@ -331,10 +340,11 @@ Definition cmismatches (cs : list ccase) : list N := cmismatches_from 0 cs.
 (* debugging aid: the model's answer to query number i: (kind, [(module, ids)]) with kind 0 not modelled, 1 refused,
    2 raised, 3 changes (local), 4 changes (not local) *)
 Definition show_answer (c : case) (i : N) : N * list (N * list N) :=
+  let cx := case_ctx c in
   match nth_error (c_queries c) (N.to_nat i) with
   | None => (9, [])
   | Some q =>
-      match model_answer c q with
+      match model_answer c cx (case_cmps c cx) q with
       | None => (8, [])
       | Some RUnmodelled => (0, [])
       | Some RRefused => (1, [])
